@@ -21,7 +21,13 @@ const (
 )
 
 func (p Projector) zoneOK(t time.Time) bool {
-	return t.Location() == p.Zone || t.Location().String() == p.Zone.String()
+	if t.Location() == p.Zone {
+		return true
+	}
+	// an equal zone: same name and the same offset at this instant
+	_, o1 := t.Zone()
+	_, o2 := t.In(p.Zone).Zone()
+	return t.Location().String() == p.Zone.String() && o1 == o2
 }
 
 func (p Projector) ts(t *time.Time) O {
